@@ -5,6 +5,8 @@ import Bluebell.Gen.Compiled
 import Bluebell.Exec
 import Bluebell.PreParse
 import Bluebell.Eid
+import Bluebell.Types
+import Bluebell.Convert
 /-! Request dispatcher for the line-protocol driver (not part of the proof library's trusted
 statements; it only exposes the model's executable definitions). -/
 open Lean
@@ -42,6 +44,51 @@ partial def jsonOfXml : Xml → Json
   | .text s => .str s
   | .elem t a ks => .arr #[.str t, Json.mkObj (a.map fun (k, v) => (k, Json.str v)), .arr (ks.map jsonOfXml).toArray]
 
+partial def jsonOfItem : Item → Json
+  | .text v => Json.mkObj [("type", "text"), ("value", Json.str v)]
+  | .node t n a c nu h sh f aa =>
+    let attrsJ := fun (x : Attrs) => Json.mkObj (x.map fun (k, v) => (k, Json.str v))
+    Json.mkObj ([("type", Json.str t), ("name", Json.str n)]
+      ++ (match a with | some x => [("attribs", attrsJ x)] | none => [])
+      ++ (match c with | some x => [("children", Json.arr (x.map jsonOfItem).toArray)] | none => [])
+      ++ (match nu with | some x => [("num", Json.str x)] | none => [])
+      ++ (match h with | some x => [("heading", Json.arr (x.map jsonOfItem).toArray)] | none => [])
+      ++ (match sh with | some x => [("subheading", Json.arr (x.map jsonOfItem).toArray)] | none => [])
+      ++ (match f with | some x => [("from", Json.arr (x.map jsonOfItem).toArray)] | none => [])
+      ++ (match aa with | some x => [("att_attribs", attrsJ x)] | none => []))
+
+def handleToDict (j : Json) : Json :=
+  let inp := (getStr j "text").toList.toArray
+  let rule := getStr j "root"
+  match eval aknExec inp (defaultFuel inp) (.ref rule) 0 with
+  | .ok t =>
+    if t.stop == inp.size then
+      let fuel := defaultFuel inp
+      if kindOf t != "dict" then Json.mkObj [("res", "ok"), ("kind", Json.str (kindOf t))]
+      else
+        let d : Json := match t.lastType with
+          | some "BlockAttrs" => Json.mkObj ((blockAttrs inp fuel t).map fun (k, v) => (k, Json.str v))
+          | some "BlockAttr" => Json.mkObj [(((t.child "attr_name").textOf inp), Json.str (pyStripS ((t.child "value").textOf inp)))]
+          | some "Subheading" => Json.arr ((toDictList inp fuel t).map jsonOfItem).toArray
+          | some "From" => Json.arr ((toDictList inp fuel t).map jsonOfItem).toArray
+          | _ => jsonOfItem (toDict inp fuel t)
+        Json.mkObj [("res", "ok"), ("kind", "dict"), ("dict", d)]
+    else Json.mkObj [("res", "leftover"), ("stop", t.stop)]
+  | .fail => Json.mkObj [("res", "fail")]
+  | .oof => Json.mkObj [("res", "oof")]
+
+def urisOf (j : Json) : Uris :=
+  match j.getObjVal? "uris" with
+  | .ok u => { work := getStr u "work", expr := getStr u "expr", manif := getStr u "manif",
+               workBase := getStr u "workBase", exprBase := getStr u "exprBase", manifBase := getStr u "manifBase",
+               present := true }
+  | .error _ => { present := false }
+
+def resJson (r : Except Err Xml) : Json :=
+  match r with
+  | .ok x => Json.mkObj [("xml", jsonOfXml x)]
+  | .error e => Json.mkObj [("exc", Json.str e.name)]
+
 def grammarOf (name : String) : Grammar :=
   match name with
   | "compiled" => aknCompiled
@@ -69,6 +116,8 @@ def handle (j : Json) : Json :=
       let (x, m) := rewriteAll (xmlOfJson (j.getObjValD "tree")) (getStr j "prefix")
       Json.mkObj [("tree", jsonOfXml x), ("mapping", Json.arr (m.map fun (a, b) => Json.arr #[.str a, .str b]).toArray)]
   | "cleannum" => Json.mkObj [("out", Json.str (cleanNum (getStr j "num")))]
+  | "convert" => resJson (convert (urisOf j) (getStr j "prefix") (getStr j "text") (getStr j "root"))
+  | "todict" => handleToDict j
   | "preparse" => Json.mkObj [("out", Json.str (String.ofList (preParse (getNat j "n") (getStr j "text").toList)))]
   | op => Json.mkObj [("error", Json.str s!"unknown-op: {op}")]
 
